@@ -355,7 +355,41 @@ class Lowering:
         prop = self.model_props().get(name)
         if prop is not None:
             return substitute(prop, {("param", "$self"): base})
+        nt = self._namedtuple_ctor(base)
+        if nt is not None:
+            ci, fields = nt
+            if name in fields:
+                return fields[name]
+            m = ci.methods.get(name)
+            if m is not None and m.is_property and depth_guard(self) < 4:
+                body = [s for s in m.node.body if not (isinstance(s, ast.Expr) and isinstance(s.value, ast.Constant))]
+                if len(body) == 1 and isinstance(body[0], ast.Return) and body[0].value is not None:
+                    self._nt_depth = getattr(self, "_nt_depth", 0) + 1
+                    try:
+                        low = Lowering(self.model, m, m.module)
+                        low._nt_depth = self._nt_depth
+                        return low.expr(body[0].value, {m.params[0].name: base})
+                    finally:
+                        self._nt_depth -= 1
         return ("attr", base, name)
+
+    def _namedtuple_ctor(self, base):
+        """``Cls(a, b)`` of a package NamedTuple class: (ClassInfo, {field: argument term})."""
+        if op(base) != "call" or op(base[1]) != "cls" or base[1][1] not in self.model.classes:
+            return None
+        ci = self.model.classes[base[1][1]]
+        if not any(b.split("[")[0].rsplit(".", 1)[-1] == "NamedTuple" for b in ci.base_exprs):
+            return None
+        names = [n for n, (ann, _) in ci.fields.items() if ann is not None]
+        if any(op(a) == "star" for a in base[2]) or any(k is None for k, _ in base[3]) or len(base[2]) > len(names):
+            return None
+        fields = dict(zip(names, base[2]))
+        for k, v in base[3]:
+            if k in names:
+                fields[k] = v
+        if set(fields) != set(names):
+            return None
+        return ci, fields
 
     def model_props(self) -> dict:
         cache = getattr(self.model, "_prop_cache", None)
@@ -420,6 +454,10 @@ class Lowering:
             inner = args[0]
             if op(inner) == "call" and op(inner[1]) == "attr" and inner[1][2] == "split" and len(inner[2]) == 1 and not inner[3]:
                 return ("call", ("attr", inner[1][1], "replace"), (inner[2][0], func[1]), ())
+        if op(func) == "attr" and func[2] == "_asdict" and not args and not kws:
+            nt = self._namedtuple_ctor(func[1])
+            if nt is not None:
+                return ("dict", tuple((("const", k), v) for k, v in nt[1].items()))
         if fname == "getattr" and len(args) in (2, 3) and not kws and is_const(args[1]) and isinstance(args[1][1], str):
             return self.mk_attr(args[0], args[1][1])
         return t
@@ -667,6 +705,10 @@ class Lowering:
             return ("star", inner) if value is None else inner
         # attribute / subscript targets are handled by the summariser as stores
         return self.expr(target, env)
+
+
+def depth_guard(low) -> int:
+    return getattr(low, "_nt_depth", 0)
 
 
 def build_property_table(model: Model) -> dict:
